@@ -31,7 +31,7 @@ def _unit_worker(args):
 def units_for(db, prop):
     units = []
     for q, cd in sorted(db.contracts.items()):
-        if prop in cd.options.get("props", []):
+        if prop in cd.options.get("props", []) and not cd.options.get("trusted"):
             for v in R.variants_of(cd):
                 units.append(("contract", q, v))
     files = set()
@@ -44,7 +44,8 @@ def units_for(db, prop):
         if prop in ld.options.get("props", []) or ld.file in files or ld.options.get("shared"):
             units.append(("lemma", n, {}))
     for n, sd in sorted(db.specs.items()):
-        units.append(("spec", n, {}))
+        if not getattr(sd, "abstract", False):
+            units.append(("spec", n, {}))
     return units
 
 
@@ -177,6 +178,16 @@ def main(argv=None):
     functions = []
     trusted = set()
     canaries = []
+    br = {}
+    for r in results:
+        for k_, v_ in (r.get("branches") or {}).items():
+            cur = br.setdefault((r["unit"][1], k_), [False, False, r.get("dead_ok", [])])
+            cur[0] = cur[0] or v_[0]
+            cur[1] = cur[1] or v_[1]
+    for (fn_, k_), v_ in sorted(br.items()):
+        for side, nm in ((0, "then"), (1, "else")):
+            if not v_[side] and (k_ + " " + nm) not in v_[2]:
+                crashed.append({"unit": ["branch", fn_, {}], "error": "UNREACHED-BRANCH %s: %s [%s side is never explored under the contract: contract too strong or modelling gap]" % (fn_, k_, nm)})
     for r in results:
         kind, name, variant = r["unit"]
         functions.append({"kind": kind, "name": name, "variant": variant, "sha256": r.get("sha"), "file": r.get("file"), "backend": "U", "obligations": len(r["obligations"]), "wall_s": r.get("wall_s")})
